@@ -335,3 +335,34 @@ _discharge0 = discharge
 
 def discharge(F, s):  # noqa: F811
     return _discharge0(F, s) or prefix_guard(F, s)
+
+
+TRANSPARENT = re.compile(
+    r"(Deref(Mut)?>::deref(_mut)?|::into_owned|::as_ref|::as_str|::as_slice|::borrow|::clone|::to_owned|::to_string|"
+    r"Index<I>>::index|Index<I> for str>::index|::into|::from|::unwrap_or_default|::copied|::cloned)$")
+
+
+def root_call(fn, o, depth=12):
+    """First non-transparent call on the backward def chain of an operand: returns the call terminator,
+    ('var', name) when the chain ends in a named local/argument, or None."""
+    defs = mir.defs_of(fn)
+    while depth > 0:
+        depth -= 1
+        if "c" in o:
+            return ("const", o["c"])
+        l = o["l"]
+        ds = defs.get(l, [])
+        if len(ds) != 1:
+            return ("var", fn.var(l) or f"_{l}")
+        _, _, k, srcs, node = ds[0]
+        if k in ("use", "ref", "cast", "rawptr") and srcs:
+            o = srcs[0]
+            continue
+        if k == "call":
+            nm = node.get("rn") or node.get("fp", "")
+            if TRANSPARENT.search(nm) and srcs:
+                o = srcs[0]
+                continue
+            return ("call", node)
+        return ("var", fn.var(l) or f"_{l}")
+    return None
